@@ -11,6 +11,7 @@ from tartiflette.execution.helpers import get_field_definition
 from tartiflette.execution.types import build_resolve_info
 from tartiflette.utils.errors import (
     extract_exceptions_from_results,
+    graphql_error_from_nodes,
     located_error,
 )
 from tartiflette.utils.values import is_invalid_value
@@ -321,6 +322,17 @@ async def create_source_event_stream(
         operation_root_type,
         execution_context.operation.selection_set,
     )
+
+    if not fields:
+        # e.g. the root field is excluded by @skip / @include: a query error,
+        # answered as such instead of failing on the empty selection
+        execution_context.add_error(
+            graphql_error_from_nodes(
+                "Subscription operations must select one top level field.",
+                nodes=execution_context.operation,
+            )
+        )
+        return await response_builder(errors=execution_context.errors)
 
     response_name = list(fields.keys())[0]
     field_nodes = fields[response_name]
